@@ -62,6 +62,32 @@ def funnel(rep, F, v, cls):
             "C13", "R-MPT.funnel", "%s(%s)" % (f["name"], sig), "constructor does not reach the validating constructor (AssignmentEvaluator::run): rotation data supplied through it is never checked",
             f["file"], f["line"]))
     rep.obligation(len(validating) >= 1, lambda: C.Finding("C13", "R-MPT.funnel", cls, "no constructor of %s calls AssignmentEvaluator::run" % cls, None, None))
+    # (a') the validation is the last thing that happens to the coefficients: nothing in a constructor body touches the
+    # storage after the validating call, and a delegating constructor's body does not touch it at all
+    def touches(x):
+        for y in A.walk(x):
+            if y.get("k") == "MemberExpr" and y.get("name") == "data_":
+                return y
+            if A.is_call(y) and A.short(y.get("fn")) in ("coeffs", "coeffs_nonconst", "data") and str(y.get("cls", "")).startswith("manif::"):
+                return y
+        return None
+    for f in ctors:
+        if f.get("copyctor") or f.get("movector"):
+            continue
+        stmts = (f.get("body") or {}).get("ch") or []
+        after = stmts
+        if f["id"] in validating:
+            idx = max(i for i, st in enumerate(stmts) if any("AssignmentEvaluator" in str(x.get("cls")) for x in calls_in(st, "run")))
+            after = stmts[idx + 1:]
+        elif not any(i.get("delegate") for i in f.get("inits") or []):
+            continue       # neither validating nor delegating: reported by the funnel rule above
+        n += 1
+        hit = next((t for t in (touches(st) for st in after) if t is not None), None)
+        sig = ", ".join(p.get("cty", "?")[:40] for p in f["params"])
+        rep.obligation(hit is None, lambda f=f, sig=sig, hit=hit: C.Finding(
+            "C13", "R-MPT.funnel-last", "%s(%s)" % (f["name"], sig),
+            "the constructor accesses the coefficient storage (line %s) after the validating step (AssignmentEvaluator::run / the delegation): what is stored is no longer what was supplied and checked" % hit.get("ln"),
+            f["file"], hit.get("ln")))
     return n
 
 
@@ -299,6 +325,7 @@ def run(args):
     rep.observations.append("the derived-class operator=(const Eigen::MatrixBase&) (macro MANIF_GROUP_ASSIGN_OP) hides LieGroupBase::operator=(MatrixBase) and does not validate; the property speaks of construction only")
     rep.rules = [
         "C13.a R-MPT.funnel: every constructor of SO2..SGal3 that takes rotation data from outside delegates (transitively) to the constructor that calls AssignmentEvaluator::run",
+        "C13.a' R-MPT.funnel-last: in every constructor the validating step (AssignmentEvaluator::run, or the delegation to a constructor that has it) is the last access to the coefficient storage",
         "C13.b/c R-ASSERT: with assertions enabled each acceptance test (6 AssignmentEvaluatorImpl + quat setters) is `!( |norm(slice) - 1| < Constants::eps )` -> raise<invalid_argument>; with NDEBUG no such raise exists in the evaluators, setters or constructors (both configurations analysed from the same tree)",
         "C13.d R-SLICE: the slice the assertion measures == the slice normalize() rescales == the asSO3() view (3-D) / contains real(), imag() (2-D)",
         "C13.d R-TABLE.roundtrip (exact): constructing from coefficient-level quantities and reading translation()/quat()/x()...t()/linearVelocity() gives back exactly the supplied symbols",
